@@ -19,7 +19,7 @@ VARIABLES l, fails, drift, frommc, dials, dialdrift, done
 tvars == <<l, fails, drift, frommc, dials, dialdrift, done>>
 
 WellFormed(r) == /\ Has(r, "ev") /\ r.ev = "Bundle" /\ Has(r, "in") /\ Has(r, "out")
-                 /\ r.in.exe.k \in {"absent", "dir", "bundle"} /\ r.in.lib.k \in {"absent", "dir", "bundle"}
+                 /\ r.in.exe.k \in Kinds /\ r.in.lib.k \in Kinds
                  /\ r.in.inbin \in BOOLEAN /\ r.out.ok \in BOOLEAN /\ r.out.exists \in BOOLEAN
 
 \* growth: a real agent.Dial against a scripted transport (see AgentDialProps); only the two facts that
@@ -36,6 +36,7 @@ RecFails(i, r) ==
   ELSE Chk(Want, i, "C46_SearchOrder", C46_SearchOrder(r.in, r.out))
     \o Chk(Want, i, "C46_ExactBytes", C46_ExactBytes(r.in, r.out))
     \o Chk(Want, i, "C46_UnknownRejected", C46_UnknownRejected(r.in, r.out))
+    \o Chk(Want, i, "C46_FirstHolderWins", C46_FirstHolderWins(r.in, r.out))
 
 Drift(r) == IF WellFormed(r) /\ (r.out.ok # Expected(r.in).ok \/ (r.out.ok /\ r.out.b # Expected(r.in).b)) THEN 1 ELSE 0
 
